@@ -18,7 +18,7 @@ package pos
 //@   ensures #linecol result.Line == from.Position().Line && result.Col == from.Position().Col
 
 //@ func (*Pos).Move
-//@   props C09
+//@   props C09 C19
 //@   requires p != nil
 //@   nopanic
 //@   modifies p.Idx, p.Line, p.Col
